@@ -103,6 +103,11 @@ def make_scenario(rnd, counts, nues_choices=None, fault=None, opts=None):
             "ambrDl": num(rnd.choice([0, 1, 255, 256, 1 << 32, 4000000000000, rnd.randrange(4000000000001)])),
             "ambrUl": num(rnd.choice([0, 1, 65535, 65536, 1 << 24, 4000000000000])),
         })
+        # optional IEs of the PDU SESSION RESOURCE SETUP REQUEST itself (TS 38.413 9.2.1.1): RAN Paging Priority precedes the list
+        r2 = random.Random(rnd.random())
+        ues[-1]["setupPaging"] = opts.get("setup_paging", r2.random() < 0.5)
+        if opts.get("big_amf_id") and u == 0:
+            ues[u]["amfId"] = num(rnd.choice([1 << 32, (1 << 40) - 1, rnd.randrange(1 << 32, 1 << 40)]))
         if u and ues[u]["amfId"] in [x["amfId"] for x in ues[:u]]:
             ues[u]["amfId"] = num(1000 + u)
     scn = {"cfg": cfg, "ues": ues, "fault": fault or {"kind": "none", "at": -1, "bytes": []}}
